@@ -122,7 +122,7 @@ def draw_label_codes(draw, n: int, ngroups: int, style: str):
 LABEL_STYLES = ["random", "random", "sorted", "runs", "periodic", "constant", "blocks"]
 
 
-def draw_labels(draw, n: int, *, kinds=None, max_groups=6, missing=True, styles=None):
+def draw_labels(draw, n: int, *, kinds=None, max_groups=6, missing=True, styles=None, allow_all_missing=False):
     """-> dict(spec=label array spec, pool=[labels], kind=...)"""
     kind = draw(st.sampled_from(kinds or LABEL_KINDS))
     ngroups = draw(st.integers(1, max_groups))
@@ -144,6 +144,8 @@ def draw_labels(draw, n: int, *, kinds=None, max_groups=6, missing=True, styles=
             b = draw(st.integers(a, min(n - 1, a + 5)))
             for i in range(a, b + 1):
                 vals[i] = "nan"
+        if not allow_all_missing and vals and all(v == "nan" for v in vals):
+            vals[draw(st.integers(0, n - 1))] = pool[0]  # at least one labelled element
         nmissing = sum(1 for v in vals if v == "nan")
     return {
         "spec": {"dt": label_dtype(kind), "sh": [n], "v": vals},
